@@ -23,8 +23,21 @@ type c40notifier struct {
 	log *[]c40rec
 }
 
+// c40msg is an element of a PublishArray call; P is the field that selects the specific key.
+type c40msg struct {
+	P  string
+	ID int
+}
+
 func (n *c40notifier) Notify(key string, data interface{}) error {
-	*n.log = append(*n.log, c40rec{n.id, key, data.(int)})
+	id := 0
+	switch v := data.(type) {
+	case int:
+		id = v
+	case c40msg:
+		id = v.ID
+	}
+	*n.log = append(*n.log, c40rec{n.id, key, id})
 	// delivering to a subscriber is a call into another component (an RPC notifier, a
 	// channel send): the publisher can be descheduled here
 	vsched.Point("notify")
@@ -43,7 +56,7 @@ func TestVerifC40(t *testing.T) {
 	maxDev := mc.Pick(2, 3)
 	mc.Run(t, mc.Config{ID: "C40", Name: "C40-subscribe", MaxDev: maxDev, ShardLevels: 3, Params: map[string]interface{}{
 		"driver_ops": depth, "preemption_bound": maxDev, "notifiers": 2, "keys": []string{"ns_k", "ns_k_p"},
-		"alphabet": "Subscribe(n,key) | Publish(param in {'',p}) | Leave(n)=close(err chan) | Settle(wait for quiescence)",
+		"alphabet": "Subscribe(n,key) | Publish(param in {'',p}) | PublishArray([p,q,-,p]) | Leave(n)=close(err chan) | Settle(wait for quiescence)",
 		"threads":  "driver + subPub.process + one waiter goroutine per Subscribe (all real, rewritten)"}},
 		func(x *mc.X) {
 			var log []c40rec
@@ -61,7 +74,7 @@ func TestVerifC40(t *testing.T) {
 						nn = 2
 					}
 					// ops: 0 stop | Settle | Publish('') | Publish(p) | for n<nn: Sub(n,ns_k) Sub(n,ns_k_p) Leave(n)
-					op := x.Choose(4 + 3*nn)
+					op := x.Choose(5 + 3*nn)
 					if op == 0 {
 						x.Logf("stop")
 						break
@@ -128,6 +141,74 @@ func TestVerifC40(t *testing.T) {
 						for _, g := range got {
 							if !keys[g.key] {
 								x.Fail("foreign-key", "publish on %v notified key %s", keys, g.key)
+							}
+						}
+					case op == 4+3*nn:
+						// one PublishArray call: four messages, params p, q, none, p
+						base := nextMsg
+						nextMsg += 4
+						list := []interface{}{c40msg{"p", base + 1}, c40msg{"q", base + 2}, c40msg{"", base + 3}, c40msg{"p", base + 4}}
+						before := len(log)
+						_ = sp.PublishArray("ns", "k", "P", list)
+						got := log[before:]
+						x.Logf("PublishArray(ns,k,P,[p:%d q:%d -:%d p:%d]) -> notified %v", base+1, base+2, base+3, base+4, got)
+						x.Tag("publish-array")
+						want := map[string][]int{"ns_k": {base + 1, base + 2, base + 3, base + 4}, "ns_k_p": {base + 1, base + 4}}
+						for n := 0; n < 2; n++ {
+							for key, ids := range want {
+								must, may := 0, 0
+								for _, r := range regs {
+									if r.n == n && r.key == key {
+										may++
+										if r.settled && !left[n] {
+											must++
+										}
+									}
+								}
+								first := map[int]int{}
+								cnt := map[int]int{}
+								for i, g := range got {
+									if g.n == n && g.key == key {
+										if _, ok := first[g.msg]; !ok {
+											first[g.msg] = i
+										}
+										cnt[g.msg]++
+									}
+								}
+								prev := -1
+								for _, id := range ids {
+									if leftSettled[n] && cnt[id] > 0 {
+										x.Fail("notified-after-leave", "notifier %d left but PublishArray delivered msg%d on %s", n, id, key)
+									}
+									if must > 0 && cnt[id] < 1 {
+										x.Fail("missed-message", "notifier %d has %d settled registration(s) for %s but PublishArray did not deliver msg%d", n, must, key, id)
+									}
+									if cnt[id] > may {
+										x.Fail("duplicate-message", "notifier %d registered %d time(s) for %s but PublishArray delivered msg%d %d times", n, may, key, id, cnt[id])
+									}
+									if cnt[id] > 0 {
+										if first[id] < prev {
+											x.Fail("out-of-publication-order", "notifier %d on %s: PublishArray delivered msg%d before an earlier message of the same call (deliveries %v)", n, key, id, got)
+										}
+										prev = first[id]
+									}
+								}
+								for _, g := range got {
+									if g.n == n && g.key == key {
+										ok := false
+										for _, id := range ids {
+											ok = ok || g.msg == id
+										}
+										if !ok {
+											x.Fail("foreign-key", "notifier %d got msg%d on key %s which it does not belong to", n, g.msg, key)
+										}
+									}
+								}
+							}
+						}
+						for _, g := range got {
+							if g.key != "ns_k" && g.key != "ns_k_p" && g.key != "ns_k_q" {
+								x.Fail("foreign-key", "PublishArray notified key %s", g.key)
 							}
 						}
 					default:
